@@ -41,6 +41,11 @@ GEN = {
     "cover_base": ("cover", "ChannelCover_base.cfg"),
     "cover_accept": ("cover", "ChannelCover_accept.cfg"),
     "cover_accept2": ("cover", "ChannelCover_accept2.cfg"),
+    "cover_impostor": ("cover", "ChannelCover_impostor.cfg"),
+    # scripted schedules enumerated as paths (first Sends, adversarial prefix, fault, pump): ChannelScript.tla
+    "script_quick": ("script", "ChannelScript_quick.cfg"),
+    "script_impostor": ("script", "ChannelScript_impostor.cfg"),
+    "script_deep": ("script", "ChannelScript_deep.cfg"),
     "sim_restart": ("sim", "ChannelGen_restart.cfg"),
     "sim_rekey": ("sim", "ChannelGen_rekey.cfg"),
     "sim_impostor": ("sim", "ChannelGen_impostor.cfg"),
@@ -67,7 +72,11 @@ def stage1(tier, stats):
 
     def gen(fam):
         kind, cfg = GEN[fam]
-        if kind == "cover":
+        if kind == "script":
+            if fam == "script_deep" and tier != "thorough":
+                return fam, []
+            res = core.tlc("ChannelScript", cfg, workers=2, timeout=3000, label="gen-" + fam)
+        elif kind == "cover":
             res = core.tlc("ChannelGen", cfg, workers=1, timeout=1800, label="gen-" + fam, short=True)
         else:
             n = T["sim"][fam]
@@ -75,13 +84,15 @@ def stage1(tier, stats):
                            label="gen-" + fam, short=(n <= 300))
         core.tlc_ok_or_inconclusive(res, "Gen " + fam)
         bs = [x[1] for x in res.printed("BEH")]
+        if kind == "script":
+            stats.setdefault("scripts", {})[fam] = dict(paths=len(bs), states=res.distinct)
         if not bs:
             raise core.Inconclusive("generator %s produced nothing" % fam)
         return fam, bs
 
     mcf = [ex.submit(mc, *m) for m in T["mc"]]
     gf = [ex.submit(gen, fam) for fam in GEN]
-    behs = dict(f.result() for f in gf)
+    behs = {fam: bs for fam, bs in (f.result() for f in gf) if bs}
     return behs, mcf, ex
 
 
@@ -227,7 +238,7 @@ def report(pid, tier, stats, mine, t0):
         evaluations=stats["events"], distinct_nontrivial=stats["trace_states"],
         rule="evaluations = environment actions executed on the real channels (each followed by waiting for the real timers), validated by TLC; distinct_nontrivial = distinct states of the trace specification",
         model_checking=stats["mc"], behaviours=stats["behaviours"], drift_steps=stats["drift"], settle=stats["settle"],
-        timed=stats.get("timed", {}), exhaustive=False)
+        timed=stats.get("timed", {}), scripts=stats.get("scripts", {}), exhaustive=False)
     core.write_evidence(pid, tier, "model_checking", coverage,
                         ["sessions inside the channel are abstracted (their exact machine is Session.tla)",
                          "real-time threshold of the settle phase: 1.5 s, re-measured, harness stall detector",
